@@ -815,6 +815,45 @@ def f_nan_to_num(x, copy=True, nan=0.0, posinf=None, neginf=None):
     return r
 
 
+def f_putmask(a, mask, values):
+    """numpy.putmask semantics: a.flat[n] = values.flat[n % values.size] for every n with mask.flat[n] (NOT sequential filling)"""
+    tgt = plain(a) if isinstance(a, _nd) else None
+    if tgt is None:
+        raise TypeError("putmask: argument 1 must be numpy.ndarray")
+    m = _np.broadcast_to(plain(to_obj(mask)), tgt.shape)
+    vals = plain(to_obj(values)).ravel()
+    if vals.size == 0:
+        return None
+    c = cur() if core._CUR[0] is not None else None
+    flat_idx = list(_np.ndindex(*tgt.shape))
+    for n, idx in enumerate(flat_idx):
+        mi = m[idx]
+        v = vals[n % vals.size]
+        if isinstance(mi, SymBool):
+            tgt[idx] = c.ite(mi, v, tgt[idx])
+        elif _truth_concrete(mi):
+            tgt[idx] = v
+    return None
+
+
+def f_pinv(a, rcond=None, hermitian=False, **kw):
+    """pseudo-inverse of a square non-singular matrix = its inverse; with hermitian=True numpy reads the lower triangle only
+    (eigh, UPLO='L'), which is modelled by inverting the matrix symmetrised from its lower triangle"""
+    a = to_obj(a)
+    if not has_sym(a):
+        return wrap_num(_np.linalg.pinv(to_float(plain(a)), hermitian=hermitian))
+    if a.ndim != 2 or a.shape[0] != a.shape[1]:
+        raise FacadeMissing("pinv of a non-square symbolic matrix")
+    if hermitian:
+        p = plain(a).copy()
+        n = p.shape[0]
+        for i in range(n):
+            for j in range(i + 1, n):
+                p[i, j] = p[j, i]
+        a = p.view(SymArray)
+    return f_inv(a)
+
+
 def f_trapz(y, x=None, dx=1.0, axis=-1):
     raise FacadeMissing("trapz")
 
@@ -826,7 +865,8 @@ FUNCS = {
     "prod": f_prod, "linalg.inv": f_inv, "tensordot": f_tensordot, "dot": f_dot, "outer": f_outer,
     "allclose": f_allclose, "isclose": f_isclose, "linalg.matrix_rank": f_matrix_rank,
     "count_nonzero": f_count_nonzero, "diff": f_diff, "copy": f_copy,
-    "searchsorted": f_searchsorted, "digitize": f_digitize, "nan_to_num": f_nan_to_num,
+    "searchsorted": f_searchsorted, "digitize": f_digitize, "nan_to_num": f_nan_to_num, "putmask": f_putmask,
+    "linalg.pinv": f_pinv,
 }
 
 PASS_THROUGH = {
@@ -849,6 +889,8 @@ class _LinalgFacade:
             return lambda a: f_inv(a) if symbolic_mode() else real(a)
         if name == "matrix_rank":
             return lambda a, *r, **k: f_matrix_rank(a, *r, **k) if symbolic_mode() else real(a, *r, **k)
+        if name == "pinv":
+            return lambda a, *r, **k: f_pinv(a, *r, **k) if symbolic_mode() else real(a, *r, **k)
         if isinstance(real, type):
             return real
         def w(*a, **k):
